@@ -188,6 +188,16 @@ def nodepath_cases(run, n):
         tree = [[ids[rng.randrange(i)], ids[i], rng.choice(tsel)] for i in range(1, k)]
         # references of a type that is not selected must not matter
         other = [[rng.choice(ids), rng.choice(ids), "HasProperty"] for _ in range(rng.randint(0, 3))]
+        # objects that are not below the root but point INTO the tree with a selected reference type (listed first):
+        # they add no walk from the root
+        outside = []
+        if k >= 2 and rng.random() < 0.5:
+            for o_ in range(rng.randint(1, 2)):
+                oid = 90 + o_
+                names[oid] = "Outside%d" % o_
+                outside.append([oid, rng.choice(ids[1:]), rng.choice(tsel)])
+            ids = ids + [x[0] for x in outside]
+            tree = outside + tree
         cases.append({"nodepaths": {"tree": tree, "other": other, "root": ids[0], "names": [[i, names[i]] for i in ids], "reftypes": reftypes}})
     nodepath_check(run, cases)
 
